@@ -335,6 +335,25 @@ impl LspContext {
         Ok(())
     }
 
+    /// Answers a request that cannot be handled (unknown method, parameters that cannot be understood) with an error
+    pub(crate) fn send_error_response(
+        &self,
+        id: RequestId,
+        code: lsp_server::ErrorCode,
+        message: String,
+    ) -> MosResult<()> {
+        let response = lsp_server::Response::new_err(id, code as i32, message);
+
+        #[cfg(test)]
+        {
+            self.responses.lock().unwrap().push(response.clone());
+        }
+        if let Some(conn) = self.connection() {
+            conn.sender.send(Message::Response(response))?;
+        }
+        Ok(())
+    }
+
     fn find_definitions<'a>(
         &'a self,
         analysis: &'a Analysis,
@@ -477,7 +496,13 @@ impl LspServer {
                             return Ok(());
                         }
                     } else {
+                        // Every request gets an answer, also the ones we don't know about
                         log::trace!("unknown request: {:?}", req);
+                        ctx.send_error_response(
+                            req.id,
+                            lsp_server::ErrorCode::MethodNotFound,
+                            format!("unknown request: {}", req.method),
+                        )?;
                     }
                 }
             },
